@@ -414,6 +414,7 @@ def _decide(ob, tier, res):
         bcap = float(os.environ.get('SYMX_THOROUGH_BUDGET_S', '480'))
         ob.timeout_s = max(ob.timeout_s, min(ob.timeout_thorough_s, qcap))
         budget = max(budget, min(getattr(ob, 'budget_thorough_s', 1200), bcap))
+    smt.TRIG_SIGN_AXIOMS = bool(getattr(ob, 'trig_sign_axioms', False))
     mk = _Mk()
     explorer = Explorer(domain=[], max_paths=ob.max_paths, budget_s=budget / 2.0)
     # domain needs variable names: run build once lazily -> we collect names as mk is called.
@@ -584,7 +585,8 @@ def _decide(ob, tier, res):
             elif v.status == 'unknown':
                 res['inconclusive'].append({'label': label, 'reason': 'solver: unknown (%s) after %.0fs' % (v.reason, v.seconds)})
             else:
-                _handle_witness(ob, enc, c, ct, zc, zbase + extra, v, label, res, cache)
+                _handle_witness(ob, enc, c, ct, zc, zbase + extra, v, label, res, cache,
+                                refine=(list(base) + ([when] if when is not None else []), ct))
     if not any_reachable:
         if getattr(ob, 'allow_vacuous', False):
             # a case split whose case cannot occur under the domain (stated by the harness): nothing to decide
@@ -824,7 +826,7 @@ def _margin(t, env, truth=True):
     return True
 
 
-def _handle_witness(ob, enc, c, ct, zc, zbase, v, label, res, cache):
+def _handle_witness(ob, enc, c, ct, zc, zbase, v, label, res, cache, refine=None):
     """sat: try to get a robust witness, replay on the real code, classify."""
     import z3
     model = v.model
@@ -850,7 +852,26 @@ def _handle_witness(ob, enc, c, ct, zc, zbase, v, label, res, cache):
     env = {k: val for k, val in frac_env(model).items() if '!' not in k and '#' not in k}
     for nm in getattr(ob, '_input_names', ()):
         env.setdefault(nm, 1.0)         # inputs the violated formula does not mention: any value
-    rep = replay_claim(ob, env, c.label, cache)
+    rep = None
+    env2 = _repair_atoms(enc, model, env)
+    if env2 is not None:
+        # the model gave values to sin/cos/... atoms of an input variable: make that input consistent with them
+        # (the encoding does not tie the atom to its argument); the replay on the real code remains the arbiter
+        rep2 = replay_claim(ob, env2, c.label, {})
+        if rep2['reproduced']:
+            rep, env = rep2, env2
+    if rep is None:
+        rep = replay_claim(ob, env, c.label, cache)
+    if not rep['reproduced'] and refine is not None and (enc.atom_groups or enc.fn_atoms):
+        # the encoding over-approximates transcendental atoms: the solver's counterexample is abstract.  Concretise it:
+        # search near the witness for inputs at which path condition and negated claim hold under the TRUE functions
+        # (numeric evaluation of the same terms), then replay those on the real code -- which stays the arbiter.
+        env3 = _refine_witness(refine[0], refine[1], env)
+        if env3 is not None:
+            rep3 = replay_claim(ob, env3, c.label, {})
+            if rep3['reproduced']:
+                rep, env = rep3, env3
+                rep['note'] = 'abstract solver witness concretised by numeric refinement of the same terms'
     entry = {'obligation': ob.id, 'label': c.label, 'claim': label, 'assertion': T.show(ct, 400),
              'witness': {k: str(val) for k, val in model.items() if '!' not in k},
              'witness_float': env, 'replay': rep}
@@ -865,6 +886,101 @@ def _handle_witness(ob, enc, c, ct, zc, zbase, v, label, res, cache):
             # exact encoding but the float replay disagrees (different branch at a boundary witness, a different
             # root returned by the real root finder, or cancellation): reported, never counted as discharged
             res['inconclusive'].append({'label': label, 'reason': entry['reason'], 'unreproduced_exact': True})
+
+
+def _refine_witness(terms, ct, env, budget_s=10.0, tries=6000):
+    names = T.free_vars(list(terms) + [ct])
+    if any('#' in n or '!' in n for n in names):
+        return None                     # stub outputs (roots, quadratures) cannot be re-evaluated
+    import random
+    rnd = random.Random(20260926)
+    fixed = {'PI': math.pi, 'EULER': math.e}
+    free = [n for n in names if n not in fixed]
+    start = {n: float(env.get(n, 1.0)) for n in free}
+
+    def good(e):
+        e = dict(e)
+        e.update(fixed)
+        try:
+            for t in terms:
+                if T.evalf(t, e) is not True:
+                    return False
+            if ct.op == 'eq':
+                a, b = T.evalf(ct.args[0], e), T.evalf(ct.args[1], e)
+                if not (math.isfinite(a) and math.isfinite(b)):
+                    return False
+                return abs(a - b) > 1e-5 * max(abs(a), abs(b), 1e-300) and max(abs(a), abs(b)) > 1e-9
+            return T.evalf(ct, e) is False
+        except Exception:
+            return False
+    t0 = time.time()
+    if good(start):
+        return start
+    for i in range(tries):
+        if time.time() - t0 > budget_s:
+            break
+        sc = (0.05, 0.2, 0.7, 2.0)[i % 4]
+        e = {}
+        for n, v0 in start.items():
+            v = v0 if v0 != 0 else rnd.choice((-1.0, 1.0)) * 0.5
+            v = v * math.exp(rnd.gauss(0.0, sc))
+            if rnd.random() < 0.05:
+                v = -v
+            e[n] = v
+        if good(e):
+            return e
+    return None
+
+
+def _repair_atoms(enc, model, env):
+    """inputs made consistent with the model values of transcendental atoms whose argument is a single input variable"""
+    by_var = {}
+    for key, zv in enc.fn_atoms.items():
+        name, args = key.args[0], key.args[1:]
+        if len(args) == 1 and args[0].op == 'var' and name in ('sin', 'cos', 'tan', 'log', 'arccos', 'arcsin', 'arctan', 'tanh'):
+            val = model.get(str(zv))
+            if val is None:
+                continue
+            try:
+                by_var.setdefault(args[0].args[0], {})[name] = float(val)
+            except (TypeError, ValueError):
+                continue
+    out = dict(env)
+    changed = False
+    clamp = lambda v: max(-1.0, min(1.0, v))
+    for x, d in by_var.items():
+        if '!' in x or '#' in x:
+            continue
+        try:
+            if 'sin' in d and 'cos' in d:
+                new = math.atan2(d['sin'], d['cos'])
+            elif 'cos' in d:
+                new = math.acos(clamp(d['cos']))
+            elif 'sin' in d:
+                new = math.asin(clamp(d['sin']))
+            elif 'tan' in d:
+                new = math.atan(d['tan'])
+            elif 'log' in d:
+                new = math.exp(d['log'])
+            elif 'arccos' in d:
+                new = math.cos(d['arccos'])
+            elif 'arcsin' in d:
+                new = math.sin(d['arcsin'])
+            elif 'arctan' in d:
+                new = math.tan(d['arctan'])
+            elif 'tanh' in d:
+                new = math.atanh(max(-0.999999, min(0.999999, d['tanh'])))
+            else:
+                continue
+        except (ValueError, OverflowError):
+            continue
+        old = env.get(x)
+        if old is not None and old > 0 and new < 0 and ('sin' in d or 'cos' in d or 'tan' in d):
+            new += 2 * math.pi if 'tan' not in d else math.pi
+        if old is None or abs(new - old) > 1e-12 * max(1.0, abs(new)):
+            out[x] = new
+            changed = True
+    return out if changed else None
 
 
 class _ReplayTimeout(Exception):
